@@ -10,6 +10,8 @@ ATOMS: List[Any] = [
     "", "a", "\n", "\r", "\r\n", "\u0000", "\u001f", "\u007f", "\u0085", "\u2028", "\u2029", " ", "\t",
     "\u00e9", "\u20ac", "\U0001f600", "\"\\", "\ud7ff", "\ue000", "\ufffe", "\uffff", "\U0010ffff", "a\nb",
     "</script>", "\\n", "\ufeff", "null", "None", "NaN", "Infinity", "undefined", "true",
+    # text that a normalisation step (NFC/NFKC, case folding, strip) would change
+    "e\u0301", "\u212b", "\ufb01", "\u0130", "\u00df", " padded ", "MiXeD", "\u1e9e",
 ]
 # members named like the envelope's own members / like attributes of the model classes
 COLLIDERS: List[Any] = [
